@@ -300,6 +300,19 @@ func (b *Bus) safePacket(target *dkg.Process, p *pdkg.GossipPacket) (resp *pdkg.
 	return target.Packet(context.Background(), p)
 }
 
+// safeBroadcast is safePacket for the DKG broadcast entry point.
+func (b *Bus) safeBroadcast(target *dkg.Process, p *pdkg.DKGPacket) (resp *pdkg.EmptyDKGResponse, err error) {
+	defer func() {
+		if r := recover(); r != nil {
+			b.mu.Lock()
+			b.Panics = append(b.Panics, fmt.Sprint(r))
+			b.mu.Unlock()
+			resp, err = nil, fmt.Errorf("panic contained (as the recovery interceptor would): %v", r)
+		}
+	}()
+	return target.BroadcastDKG(context.Background(), p)
+}
+
 // ---- commands ----
 
 func meta(id string) *pdkg.CommandMetadata { return &pdkg.CommandMetadata{BeaconID: id} }
